@@ -205,12 +205,15 @@ def accessor(ctx, letters):
         for rot in range(len(LCS) if ctx.thorough() else 2):
             lcv = np.array(LCS)[(np.arange(N) + rot) % len(LCS)]
             lcda = xr.DataArray(lcv.reshape(32, 32), dims=("y", "x"), coords={"y": np.arange(32), "x": np.arange(32)})
-            ds = da.hdc.whit.whitsvc(nodata=nd, lc=lcda, p=0.9)
             out, lopt = wc.call_variant("ws2doptvplc", y, float(nd), p=0.9, lc=lcv)
-            ctx.count(sub, evaluations=N)
-            if not np.array_equal(ds[name or "band"].transpose("y", "x", "time").values.reshape(N, n), out):
-                ctx.violation(sub, {"call": "whitsvc(lc)", "name": name}, {"kind": "acc", "name": name, "p": 0.9},
-                              "whitsvc(lc=raster): band differs from the kernel called per pixel")
+            for how, dsx in (("(y,x) raster", lambda: da.hdc.whit.whitsvc(nodata=nd, lc=lcda, p=0.9)),
+                             ("raster given as (x,y)", lambda: da.hdc.whit.whitsvc(nodata=nd, lc=lcda.transpose("x", "y"), p=0.9)),
+                             ("cube given as (x,time,y)", lambda: da.transpose("x", "time", "y").hdc.whit.whitsvc(nodata=nd, lc=lcda, p=0.9))):
+                ds = dsx()
+                ctx.count(sub, evaluations=N)
+                if not np.array_equal(ds[name or "band"].transpose("y", "x", "time").values.reshape(N, n), out):
+                    ctx.violation(sub, {"call": "whitsvc(lc)", "name": name, "how": how}, {"kind": "acc", "name": name, "p": 0.9},
+                                  f"whitsvc(lc=raster) [{how}]: band differs from the kernel called per pixel (the raster must be matched to pixels by dimension name)")
     try:
         da.hdc.whit.whitsvc(nodata=nd, lc=lcda)
         ctx.violation(sub, {"call": "whitsvc(lc) without p"}, {"kind": "acc", "name": None, "p": None}, "whitsvc(lc=...) without p did not raise")
